@@ -53,6 +53,37 @@ def typestate_rule(rep, prog):
         rep.violation("R1", "anchor:wrapper-impls", "Read/Seek impls of %s not found" % adt_path)
         return adt_path
     n = 0
+    # a source that hands out one byte and then fails with Interrupted: whatever the wrapper returns, the bytes it took from the
+    # source must be the bytes it cached / reported (a wrapper that keeps reading after a short read loses them on the error)
+    for flag in (False, True):
+        ip = entry.new_interp(prog, max_seconds=30, merge_returns=False)
+        st = State()
+        w, info = make_wrapper(prog, st, adt_path, flag, [1, "interrupted", 1, "interrupted"])
+        if set(info) != {"flag", "cache", "src"}:
+            break
+        wloc = st.new_heap(w)
+        bufloc = st.new_heap(ArrayVal([IntVal.const(U8, 0)] * 3, 3))
+        outs = ip.run_function(read_fn, [RefVal(wloc, True), RefVal(bufloc, True, meta=IntVal.const(USIZE, 3))], st)
+        for o in outs:
+            n += 1
+            w2 = o.heap[wloc[1]]
+            cache = w2.fields[info["cache"]]
+            src = w2.fields[info["src"]]
+            rv = o.retval
+            ce = cache.get("elems") if isinstance(cache, Opaque) else None
+            took = (src.get("pos") - 2) if isinstance(src, Opaque) and isinstance(src.get("pos"), int) else None
+            is_ok = isinstance(rv, AdtVal) and rv.vname == "Ok"
+            ret_n = rv.fields[0].cval() if is_ok and isinstance(rv.fields[0], IntVal) and rv.fields[0].is_const() else None
+            case = "flag=%s,inner=short-then-interrupted" % flag
+            rep.instance(rid, "read|%s" % case, sample={"case": case, "taken_from_source": took, "returned": repr(rv)[:40], "cache_len_after": len(ce) if ce is not None else None})
+            if took is None or ce is None:
+                rep.violation("R1", "read:%s:inexact" % case, "wrapper state after read() is not exact")
+                continue
+            reported = ret_n if is_ok else 0
+            if reported is None or took != reported:
+                rep.violation("R1", "read:short-then-error:bytes-lost", "read() took %s byte(s) from the source but reports %s: on a short read followed by a transient error the bytes already taken are lost to the decoder" % (took, "Ok(%s)" % ret_n if is_ok else "an error"))
+            elif not flag and len(ce) != 2 + took:
+                rep.violation("R1", "read:short-then-error:cache", "read() took %d byte(s) from the source but cached %d" % (took, len(ce) - 2))
     for flag in (False, True):
         for outcome in ("ok", "err"):
             ip = entry.new_interp(prog, max_seconds=30, merge_returns=False)
@@ -114,7 +145,7 @@ def typestate_rule(rep, prog):
                 rep.violation("R1", "seek:forward", "seek() does not forward the seek to the inner source")
             if not (isinstance(cache, Opaque) and cache.get("elems") is not None and len(cache.get("elems")) == 2):
                 rep.violation("R1", "seek:cache", "seek() changes the byte cache")
-    rep.floor("wrapper transitions", 8, n)
+    rep.floor("wrapper transitions", 10, n)
     return adt_path
 
 
